@@ -106,7 +106,7 @@ func runC17(c *Ctx) {
 			}
 			for _, call := range callsToFn(fn, w.asyncFlush) {
 				fam := "write"
-				if readFamily[top.Name()] {
+				if readFamily[pinName(top)] {
 					fam = "read"
 				}
 				families[fam] = true
